@@ -293,7 +293,7 @@ func Run(c Config, fns []func(), abort func(*Result)) *Result {
 	}
 	cfg = c
 	if cfg.StepCap == 0 {
-		cfg.StepCap = 5_000_000
+		cfg.StepCap = 80_000_000
 	}
 	rng = newXo(cfg.Seed)
 	locs = make(map[unsafe.Pointer]*loc, 1<<14)
